@@ -5,6 +5,7 @@ use crate::fmtx::*;
 use crate::gen::int_octets;
 use crate::lanes::ber::real_encode;
 use crate::simnet::{self, Net};
+use futures_util::FutureExt;
 use ldap3::verif::{verif_take_trace, verif_trace};
 use ldap3::{Ldap, LdapConnAsync, LdapError, Scope};
 use lber::structure::PL;
@@ -70,6 +71,7 @@ fn err_text(e: &LdapError) -> String {
         LdapError::OpSend { .. } => String::from("opsenderr"),
         LdapError::IdScrubSend { .. } => String::from("scrubsenderr"),
         LdapError::EndOfStream => String::from("closed"),
+        LdapError::Io { source } if source.kind() == std::io::ErrorKind::InvalidData => String::from("decode"),
         LdapError::Io { .. } => String::from("io"),
         LdapError::FilterParsing => String::from("filter"),
         other => format!("other:{}", other).replace(' ', "_"),
@@ -164,13 +166,15 @@ pub fn run_script(steps: &[Step]) -> Outcome {
                                 verif_trace(format!("cli issue {} {} {}", i, kind_text(&k2), match tmo_ms { Some(t) => t.to_string(), None => String::from("none") }));
                                 match k2 {
                                     OpKind::Single => {
-                                        let r = l.delete("cn=x").await;
+                                        // a panic inside the operation future (caller's task) is an outcome, not a lost task
+                                        let r = std::panic::AssertUnwindSafe(l.delete("cn=x")).catch_unwind().await;
                                         let txt = match r {
-                                            Ok(res) => match tok_of_text(&res.text) {
+                                            Err(_) => String::from("panic"),
+                                            Ok(Ok(res)) => match tok_of_text(&res.text) {
                                                 Some(t) => format!("frame:{}", t),
                                                 None => String::from("ack"),
                                             },
-                                            Err(e) => err_text(&e),
+                                            Ok(Err(e)) => err_text(&e),
                                         };
                                         verif_trace(format!("cli done {} {}", i, txt));
                                     }
